@@ -242,7 +242,21 @@ def to_bare(cal_dir):
     os.rename(tmp, cal_dir)
 
 
+class Unreachable(Exception):
+    """The server process is alive but its port refuses connections: the environment (port
+    clash, overload), not an observation about xandikos."""
+
+
 def run_config(frontend, prefix, principal, flagseq, storage="tree"):
+    for attempt in range(3):
+        try:
+            return _run_config(frontend, prefix, principal, flagseq, storage)
+        except Unreachable:
+            time.sleep(1.0 + attempt)
+    return _run_config(frontend, prefix, principal, flagseq, storage)
+
+
+def _run_config(frontend, prefix, principal, flagseq, storage="tree"):
     base = mkscratch("xd-")
     directory = os.path.join(base, "data")
     starts = []
@@ -309,9 +323,13 @@ def run_config(frontend, prefix, principal, flagseq, storage="tree"):
                     except OSError:
                         prev_listing = None
               except OSError as exc:
-                # the server stopped answering in the middle of the walk: an observation
+                if srv.proc.poll() is None:
+                    raise Unreachable(repr(exc))
+                # the server process ended in the middle of the walk: an observation
                 rec["up"] = False
-                rec["trail"] = (rec.get("trail") or "") + " connection failed: %r" % (exc,)
+                srv.stop()
+                rec["trail"] = (rec.get("trail") or "") + " connection failed: %r; server process ended: %s" % (
+                    exc, getattr(srv, "stderr", "")[-300:])
             finally:
                 srv.stop()
             if storage == "bare" and user and not user.get("converted"):
